@@ -167,7 +167,7 @@ def build_negation_thresholds(sc, ec, tag0):
                 obs.append(Oblig(f"C08/negation/threshold/executes{tag}", [], BoolVal(False), "post", ("C08",), {"engine_error": "no single path"}))
                 continue
             path, me = r1.path, r1.me
-            env1 = ex.locals["_invert_increasing_function"][-1][0].env
+            env1 = r1.roles()
             bp, bn = reflected(ex, path, me.attrs["pos"], "negpos"), reflected(ex, path, me.attrs["neg"], "negneg")
             for b in (bp, bn):
                 path.add(P.sorted_formula(*b.sym))        # L6, discharged in build_negation
@@ -179,7 +179,7 @@ def build_negation_thresholds(sc, ec, tag0):
                 obs.append(Oblig(f"C08/negation/threshold/executes{tag}", [], BoolVal(False), "post", ("C08",), {"engine_error": "no single path"}))
                 continue
             path = r2.path
-            env2 = ex.locals["_invert_increasing_function"][-1][0].env
+            env2 = r2.roles()
             hy = path.pc
             arith = [h for h in hy if not has_quant([h]) and "select" not in h.sexpr()]
             Kc = r1.clipK()
@@ -211,7 +211,7 @@ def build_negation_thresholds(sc, ec, tag0):
             hy2 = [substitute(h, *abstr) for h in hy if "cnt_l" not in h.sexpr()] + facts
             th1, th2 = substitute(r1.th, *abstr), substitute(r2.th, *abstr)
             obs.append(Oblig(f"C08/negation/threshold/negated{tag}", hy2, th2 == -th1, "relational", ("C08",),
-                             {"key": f"C08/negation/threshold[{metric},{sc},{ec}]", "inst_rounds": 1}))
+                             {"key": f"C08/negation/threshold[{metric},{sc},{ec}]", "inst_rounds": 1, "abstracted": True}))
     return obs
 
 
@@ -232,7 +232,7 @@ def build_affine_thresholds(sc, ec, tag0):
                 obs.append(Oblig(f"C08/affine/threshold/executes{tag}", [], BoolVal(False), "post", ("C08",), {"engine_error": "no single path"}))
                 continue
             path, me = r1.path, r1.me
-            env1 = ex.locals["_invert_increasing_function"][-1][0].env
+            env1 = r1.roles()
             arrs = {}
             for nm in ("pos", "neg"):
                 A, N = me.attrs[nm].sym
@@ -250,7 +250,7 @@ def build_affine_thresholds(sc, ec, tag0):
                 obs.append(Oblig(f"C08/affine/threshold/executes{tag}", [], BoolVal(False), "post", ("C08",), {"engine_error": "no single path"}))
                 continue
             path = r2.path
-            env2 = ex.locals["_invert_increasing_function"][-1][0].env
+            env2 = r2.roles()
             nm = "pos" if metric in ("tpr", "fnr") else "neg"
             A, N = me.attrs[nm].sym
             Bz, _ = arrs[nm].sym
@@ -267,7 +267,7 @@ def build_affine_thresholds(sc, ec, tag0):
             goal = substitute(Implies(interior, r2.th == a_ * r1.th + b_), *sub)
             hy = [substitute(h, *sub) for h in inst]
             obs.append(Oblig(f"C08/affine/threshold/image-of-threshold{tag}", hy, goal, "relational", ("C08",),
-                             {"key": f"C08/affine/threshold[{metric},{sc},{ec}]"}))
+                             {"key": f"C08/affine/threshold[{metric},{sc},{ec}]", "abstracted": True}))
     return obs
 
 
